@@ -285,7 +285,8 @@ func (r *Runner) builtin(ctx context.Context, pos syntax.Pos, name string, args 
 			*enclosing = 1
 		case 1:
 			if n, err := strconv.Atoi(args[0]); err == nil {
-				*enclosing = n
+				// more levels than enclosing loops means the outermost one
+				*enclosing = min(n, max(r.loopDepth, 1))
 				break
 			}
 			fallthrough
